@@ -1340,7 +1340,7 @@ fn grid_programs() -> Vec<(&'static str, String, Files)> {
         v("ok-if-on-define", format!("{}val = 1\n#if val == 1 {{\n ld 1\n}} #else {{\n ld 2\n}}\n", RULES), &none),
         v("ok-asm-block", "#ruledef {\n ld {x: u8} => 0x10 @ x\n n {x} => asm {\n  ld {x}\n  ld l\n  l:\n }\n}\nval = 1\nn 5\nld val\n".to_string(), &none),
         v("ok-empty-output", "val = 1\n".to_string(), &none),
-        v("ok-static-data-with-label", "val = 1\n#d8 0x10, val\ntable:\n#d8 0x01\n".to_string(), &none),
+        v("ok-static-data-with-label", "#d8 0x10, 0x02\ntable:\n#d8 0x01\nval = 1\n".to_string(), &none),
         v("ok-reservation-no-labels", "val = 1\n#d8 1\n#res 2\n#d8 2\n".to_string(), &none),
         v("ok-include-fn", format!("{}#include \"inc.asm\"\n#fn f(x) => x + 1\nval = 1\nld f(val)\njmp inner\n", RULES), &data),
         v("fail-parse", format!("{}val = 1\nld (\n", RULES), &none),
